@@ -548,7 +548,7 @@ fn run_concurrent(cx: &mut Ctx, backend: Backend, round: u64, threads: u32, ops_
     for h in handles {
         match h.join() {
             Ok(None) => {}
-            Ok(Some(e)) => cx.violation(&format!("{}/concurrent-lookup-invalid: {}", tag, e.split(|c: char| c.is_ascii_digit()).next().unwrap_or("")), || case.clone(), || "a complete valid zone under its canonical name, no panic".into(), || e.clone()),
+            Ok(Some(e)) => cx.violation(&format!("{}/concurrent-lookup-invalid: {}", tag, if e.contains("panicked") { "panicked" } else { e.split(|c: char| c.is_ascii_digit() || c == '"').next().unwrap_or("") }), || case.clone(), || "a complete valid zone under its canonical name, no panic".into(), || e.clone()),
             Err(_) => cx.violation(&format!("{}/worker-panicked", tag), || case.clone(), || "no panic".into(), || "thread panicked".into()),
         }
     }
